@@ -1,4 +1,4 @@
-import SaModel.Lemmas.ReadBasic
+import SaModel.Lemmas.C17Range
 /-
 C17 — structurally inconsistent array views give an error, not a panic or foreign data.
 Property theorems only.  Model: SaModel/Read/Reader.lean (readers after the `fix:` commits = `Fixes.all`);
@@ -438,11 +438,6 @@ theorem readRecord_no_panic (t : Target) (fm : FieldMeta) (col : Arr) (idx : Nat
 /-- a byte string is a sub-range of a buffer -/
 def SubRange (b buf : Bytes) : Prop := ∃ s n, s + n ≤ buf.length ∧ b = (buf.drop s).take n
 
-theorem ok_bind_inv {α β} {x : R α} {f : α → R β} {b : β} (h : (x >>= f) = .ok b) : ∃ a, x = .ok a ∧ f a = .ok b := by
-  cases x with
-  | ok a => exact ⟨a, rfl, h⟩
-  | error e => cases h
-
 /-- `BytesView::get` (Utf8 / LargeUtf8 / Binary / LargeBinary): the element is a sub-range of `data` -/
 theorem bytes_in_range {v : Option Bits} {offs : List Int} {data : Bytes} {idx : Nat} {b : Bytes}
     (h : bytesGet Fixes.all v offs data idx = .ok (some b)) : SubRange b data ∧ idx + 1 < offs.length := by
@@ -500,23 +495,6 @@ theorem fsb_in_range {n len : Nat} {v : Option Bits} {data : Bytes} {idx : Nat} 
         exact ⟨⟨idx * n, n, by rw [Nat.add_mul] at hc; omega, rfl⟩, by omega⟩
       · cases h
 
-theorem getRequired_ok {α} {x : R (Option α)} {a : α} (h : getRequired x = .ok a) : x = .ok (some a) := by
-  unfold getRequired at h
-  obtain ⟨o, hx, h⟩ := ok_bind_inv h
-  cases o
-  · cases h
-  · cases h; exact hx
-
-theorem asStr_ok {x : R (Option Bytes)} {b : Bytes} (h : asStr x = .ok (some b)) : x = .ok (some b) ∧ validUtf8 b = true := by
-  unfold asStr at h
-  obtain ⟨o, hx, h⟩ := ok_bind_inv h
-  cases o
-  · cases h
-  · simp only at h
-    split at h
-    · rename_i hv; cases h; exact ⟨hx, hv⟩
-    · cases h
-
 /-- `DictionaryDeserializer::get_str`: the string is a sub-range of the values' data buffer (and valid UTF-8) -/
 theorem dict_in_range {kty : PrimTy} {kv : Option Bits} {kvals : List Int} {vty : BytesTy} {vv : Option Bits}
     {voffs : List Int} {vdata : Bytes} {idx : Nat} {b : Bytes}
@@ -538,127 +516,10 @@ theorem dict_in_range {kty : PrimTy} {kv : Option Bits} {kvals : List Int} {vty 
         exact (List.getElem?_eq_some_iff.mp hx).1
     exact ⟨(bytes_in_range h'.1).1, h'.2, hidx⟩
 
-theorem optIsSome_ok {α} {x : R (Option α)} {b : Bool} (h : optIsSome x = .ok b) : ∃ o, x = .ok o := by
-  unfold optIsSome at h
-  obtain ⟨o, hx, _⟩ := ok_bind_inv h
-  exact ⟨o, hx⟩
-
-theorem primGet_ok_lt {fx : Fixes} {v : Option Bits} {vals : List Int} {idx : Nat} {o : Option Int}
-    (h : primGet fx v vals idx = .ok o) : idx < vals.length := by
-  unfold primGet at h
-  split at h
-  · cases h
-  · rename_i x hx
-    exact (List.getElem?_eq_some_iff.mp hx).1
-
-theorem boolGet_ok_lt {fx : Fixes} {len : Nat} {v : Option Bits} {vals : Bits} {idx : Nat} {o : Option Bool}
-    (h : boolGet fx len v vals idx = .ok o) : idx < len := by
-  unfold boolGet at h
-  split at h
-  · cases h
-  · omega
-
-theorem bytesGet_ok_lt {v : Option Bits} {offs : List Int} {data : Bytes} {idx : Nat} {o : Option Bytes}
-    (h : bytesGet Fixes.all v offs data idx = .ok o) : idx < offs.length - 1 := by
-  unfold bytesGet at h
-  simp only [Fixes.all, if_true] at h
-  split at h
-  · cases h
-  · omega
-
-theorem viewGet_ok_lt {fx : Fixes} {v : Option Bits} {views : List Nat} {buffers : List Bytes} {idx : Nat} {o : Option Bytes}
-    (h : viewGet fx v views buffers idx = .ok o) : idx < views.length := by
-  unfold viewGet at h
-  split at h
-  · cases h
-  · rename_i x hx
-    exact (List.getElem?_eq_some_iff.mp hx).1
-
-theorem asStr_ok' {x : R (Option Bytes)} {o : Option Bytes} (h : asStr x = .ok o) : ∃ o', x = .ok o' := by
-  unfold asStr at h
-  obtain ⟨o', hx, _⟩ := ok_bind_inv h
-  exact ⟨o', hx⟩
-
-theorem fsbColGet_ok_lt {n : Int} {v : Option Bits} {data : Bytes} {idx : Nat} {o : Option Bytes}
-    (h : fsbColGet Fixes.all n v data idx = .ok o) : idx < vlen (.fixedSizeBinary n v data) := by
-  unfold fsbColGet at h
-  obtain ⟨r, hn, h⟩ := ok_bind_inv h
-  obtain ⟨n', len⟩ := r
-  simp only at h
-  have hidx : idx < len := by
-    unfold fsbGet at h
-    split at h
-    · cases h
-    · omega
-  unfold fsbNew at hn
-  simp only [Fixes.all, if_true] at hn
-  simp only [vlen]
-  split at hn
-  · cases hn
-  · split at hn
-    · split at hn
-      · cases hn; omega
-      · cases hn
-    · split at hn
-      · cases hn
-      · cases hn
-        rename_i h0 h1 _
-        have : ¬ n ≤ 0 := by omega
-        simp only [this, if_false]
-        exact hidx
-
 /-- every successful `is_some` (hence every `deserialize_any`, every `Option` layer, every element read of a
 list / map / struct / union, which all go through it) addresses a row below the array's length -/
-theorem isSome_ok_lt_len {a : Arr} {idx : Nat} {b : Bool} (h : isSome Fixes.all a idx = .ok b) : idx < vlen a := by
-  cases a with
-  | null len =>
-    simp only [isSome] at h
-    obtain ⟨_, hc, _⟩ := ok_bind_inv h
-    unfold nullCheck at hc
-    simp only [Fixes.all, Bool.true_and, decide_eq_true_eq] at hc
-    split at hc
-    · cases hc
-    · simp only [vlen]; omega
-  | boolean len v vals =>
-    simp only [isSome] at h
-    obtain ⟨o, ho⟩ := optIsSome_ok h
-    exact boolGet_ok_lt ho
-  | prim ty v vals => simp only [isSome] at h; obtain ⟨o, ho⟩ := optIsSome_ok h; exact primGet_ok_lt ho
-  | time ty u v vals => simp only [isSome] at h; obtain ⟨o, ho⟩ := optIsSome_ok h; exact primGet_ok_lt ho
-  | timestamp u tz v vals => simp only [isSome] at h; obtain ⟨o, ho⟩ := optIsSome_ok h; exact primGet_ok_lt ho
-  | decimal128 p s v vals => simp only [isSome] at h; obtain ⟨o, ho⟩ := optIsSome_ok h; exact primGet_ok_lt ho
-  | bytes ty v offs data =>
-    simp only [isSome] at h
-    obtain ⟨o, ho⟩ := optIsSome_ok h
-    unfold bytesColGet at ho
-    simp only [vlen]
-    split at ho
-    · obtain ⟨o', ho'⟩ := asStr_ok' ho; exact bytesGet_ok_lt ho'
-    · exact bytesGet_ok_lt ho
-  | bytesView ty v views buffers =>
-    simp only [isSome] at h
-    obtain ⟨o, ho⟩ := optIsSome_ok h
-    unfold viewColGet at ho
-    simp only [vlen]
-    split at ho
-    · obtain ⟨o', ho'⟩ := asStr_ok' ho; exact viewGet_ok_lt ho'
-    · exact viewGet_ok_lt ho
-  | fixedSizeBinary n v data =>
-    simp only [isSome] at h
-    obtain ⟨o, ho⟩ := optIsSome_ok h
-    exact fsbColGet_ok_lt ho
-  | struct len v fs => simp only [isSome] at h; simp only [vlen]; split at h <;> first | omega | cases h
-  | list l v offs fm el => simp only [isSome] at h; simp only [vlen]; split at h <;> first | omega | cases h
-  | fixedSizeList len v n fm el => simp only [isSome] at h; simp only [vlen]; split at h <;> first | omega | cases h
-  | map v offs mm ks vs => simp only [isSome] at h; simp only [vlen]; split at h <;> first | omega | cases h
-  | dictionary ks vs =>
-    simp only [isSome] at h
-    split at h
-    · obtain ⟨o, ho⟩ := optIsSome_ok h
-      simp only [vlen]
-      exact primGet_ok_lt ho
-    · cases h
-  | union types offs fs => simp only [isSome] at h; simp only [vlen]; split at h <;> first | omega | cases h
+theorem isSome_ok_lt_len {a : Arr} {idx : Nat} {b : Bool} (h : isSome Fixes.all a idx = .ok b) : idx < vlen a :=
+  isSome_ok_lt_vlen h
 
 /-- children are only ever read through `anyAt`: a successful child read is below the child's length -/
 theorem anyAt_ok_lt_len {a : Arr} {f : Nat → R DVal} {idx : Nat} {d : DVal}
